@@ -31,7 +31,7 @@ func c08pair() (*sbom.NodeList, *sbom.NodeList) {
 
 func H_C08_RemoveNodes() {
 	a := c08single("a")
-	before := a.Copy()
+	before := cloneList(a)
 	rm := []string{rt.NondetString("rm0")}
 	if rt.Bound("RM", 1, 2) == 2 {
 		rm = append(rm, rt.NondetString("rm1"))
